@@ -212,8 +212,35 @@ RtWhy(r) ==
   \cup (IF r.rt.txt.panic = 0 /\ (r.rt.txt.ok # 1 \/ r.rt.txt.eq # 1 \/ ObjOfJson(r.rt.txt.obj) # o) THEN {"rt-txt"} ELSE {})
   \cup (IF r.dbg = 1 /\ o.src # r.src THEN {"srctext"} ELSE {})
 
+\* Untrusted records (C19): an arbitrary input to a reader, then every use of the result.
+PartnerRec == CHOOSE r \in Rng(Rec) : r.ev = "Partners"
+Partners == [k \in 1..Len(PartnerRec.objs) |-> ObjOfJson(PartnerRec.objs[k])]
+UntrustedWhy(r) ==
+  LET acc == r.deser = "accept" IN
+     (IF r.panic = 1 \/ r.deser = "panic" \/ r.uses.panic = 1
+         \/ \E j \in 1..Len(r.links) : r.links[j].panic = 1 \/ r.links[j].after = 1 \/ r.links[j].errq = 1
+      THEN {"panic"} ELSE {})
+  \cup (IF acc /\ r.uses.panic = 0 /\ r.uses.load \notin {"ok", "UnresolvedExternal"} THEN {"load-kind"} ELSE {})
+  \cup (IF acc /\ r.uses.panic = 0 /\ r.big = 0 /\ r.uses.load # (IF Unresolved(ObjOfJson(r.obj)) THEN "UnresolvedExternal" ELSE "ok") THEN {"load-conf"} ELSE {})
+  \cup (IF acc /\ r.big = 0 /\ \E j \in 1..Len(r.links) :
+            LET k == r.links[j] IN
+            k.with > 0 /\ k.panic = 0 /\
+            LET o == ObjOfJson(r.obj)  p == Partners[k.with]
+                L == IF k.order = "ab" THEN Link(o, p) ELSE Link(p, o) IN
+            (k.res = "ok") # L.ok
+        THEN {"link-conf-accept"} ELSE {})
+  \cup (IF acc /\ r.big = 0 /\ \E j \in 1..Len(r.links) :
+            LET k == r.links[j] IN
+            k.with > 0 /\ k.panic = 0 /\ k.res = "ok" /\
+            LET o == ObjOfJson(r.obj)  p == Partners[k.with]
+                L == IF k.order = "ab" THEN Link(o, p) ELSE Link(p, o) IN
+            L.ok /\ Core(ObjOfJson(k.obj)) # Core(L.obj)
+        THEN {"link-conf-obj"} ELSE {})
+
 RecWhy(r) ==
   CASE r.ev = "Asm" -> AsmWhy(r)
+    [] r.ev = "Untrusted" -> UntrustedWhy(r)
+    [] r.ev = "Partners" -> {}
     [] r.ev = "Link" -> LinkWhy(r)
     [] r.ev = "Rt" -> RtWhy(r)
     [] OTHER -> {"unknown-event"}
